@@ -33,21 +33,26 @@ type bounds struct {
 	ArgValues  int // values per argument (0 = the full domain)
 	Amounts    []string
 	Tokens     []string
-	CapCand    int // candidates per (base, method, sender) group before send-time filtering
-	CapAcc     int // accepted sends executed per group
+	CapCand    int   // candidates per (base, method, sender) group before send-time filtering
+	CapAcc     []int // accepted sends executed per group, by regime
+	Encodings  []bool
 	Bases      []string
 	AllActors  bool
 	Depth2     bool
 	Depth2CapA int
 	Depth2CapB int
+	Weights    []int // shards per regime, proportionally
 }
 
 func boundsFor(tier string) bounds {
 	if tier == "thorough" {
-		return bounds{ArgValues: 0, Amounts: amountSels, Tokens: tokenSels, CapCand: 60000, CapAcc: 160, Bases: []string{"genesis", "entries", "matured"}, AllActors: true,
-			Depth2: true, Depth2CapA: 3, Depth2CapB: 3}
+		return bounds{ArgValues: 0, Amounts: amountSels, Tokens: tokenSels, CapCand: 60000, CapAcc: []int{160, 160, 160, 160, 160}, Encodings: []bool{true, true, true, true, true},
+			Bases: []string{"genesis", "entries", "matured"}, AllActors: true, Depth2: true, Depth2CapA: 3, Depth2CapB: 3, Weights: []int{2, 3, 5, 5, 5}}
 	}
-	return bounds{ArgValues: 2, Amounts: amountSels[:2], Tokens: tokenSels[:2], CapCand: 1024, CapAcc: 6, Bases: []string{"genesis", "entries"}}
+	// quick: the method code is the same in every regime (only the table lookup and two liquidity branches read the spork
+	// flags), so the all-sporks regime gets the larger cap and the encodings
+	return bounds{ArgValues: 2, Amounts: amountSels[:2], Tokens: tokenSels[:2], CapCand: 1024, CapAcc: []int{2, 2, 2, 2, 4}, Encodings: []bool{false, false, false, false, true},
+		Bases: []string{"genesis", "entries", "matured"}, Weights: []int{2, 3, 5, 5, 9}}
 }
 
 // senders per contract in the quick tier (thorough: all six)
@@ -86,10 +91,8 @@ func sendersFor(b bounds, c *contractDef, method string) []int {
 	return []int{aOwner, aStranger}
 }
 
-// shard -> (regime, sub-shard): the later regimes have more than twice the methods of the first
-var regimeWeights = []int{2, 3, 5, 5, 5}
-
-func shardPlan(shard, nshards int) (ri, sub, nsub int) {
+// shard -> (regime, sub-shard)
+func shardPlan(regimeWeights []int, shard, nshards int) (ri, sub, nsub int) {
 	if nshards < len(regimes) {
 		panic("C09 needs at least one shard per regime")
 	}
@@ -323,6 +326,12 @@ func (w *worker) group(s *snapshot, filter *vnode.Node, mr methodRef, actorIdx i
 	}
 	full[na], full[na+1] = len(amountSels), len(tokenSels)
 	dims[na], dims[na+1] = len(w.b.Amounts), len(w.b.Tokens)
+	tierDims := append([]int{}, dims...)
+	for i := range dims {
+		if dims[i] != full[i] {
+			w.r.Add("tier_cut_methods", mr.key())
+		}
+	}
 	for product(dims) > w.b.CapCand {
 		shrink(dims)
 	}
@@ -372,19 +381,19 @@ func (w *worker) group(s *snapshot, filter *vnode.Node, mr methodRef, actorIdx i
 		}
 		return k
 	}
-	for count() > w.b.CapAcc {
+	for count() > w.b.CapAcc[w.ri] {
 		if !shrink(dims) {
 			break
 		}
 	}
 	pruned := false
 	for i := range dims {
-		if dims[i] != full[i] {
+		if dims[i] != tierDims[i] {
 			pruned = true
 		}
 	}
 	if pruned {
-		w.r.Add("pruned_groups", fmt.Sprintf("%s %v of %v", key, dims, full))
+		w.r.Add("pruned_groups", fmt.Sprintf("%s %v of %v", key, dims, tierDims))
 	}
 	for _, a := range accepted {
 		if !within(a, dims) {
@@ -476,7 +485,7 @@ func run(c *xs.Ctx, r *xs.Result) {
 		return
 	}
 	w := &worker{c: c, r: r, b: boundsFor(c.Tier)}
-	w.ri, w.sub, w.nsub = shardPlan(c.Shard, c.NShards)
+	w.ri, w.sub, w.nsub = shardPlan(w.b.Weights, c.Shard, c.NShards)
 	need := map[string]bool{}
 	for _, b := range w.b.Bases {
 		need[b] = true
@@ -503,7 +512,7 @@ func run(c *xs.Ctx, r *xs.Result) {
 				w.group(s, filter, mr, a)
 			}
 			// encodings: first sender of the method's list
-			if w.mine() && !c.Expired() {
+			if w.b.Encodings[w.ri] && w.mine() && !c.Expired() {
 				w.encodings(s, filter, mr, sendersFor(w.b, mr.C, mr.M.Name)[0])
 			}
 		}
@@ -741,7 +750,7 @@ func finish(tier string, m *xs.Result, ev *xs.Evidence) {
 	if len(pruned) > 12 {
 		pruned = append(pruned[:12], fmt.Sprintf("... %d more", len(pruned)-12))
 	}
-	ev.Notes = append(ev.Notes, "groups whose domains were cut by the candidate/accepted caps (dims used of full; order: arguments..., amount, token): "+strings.Join(pruned, "; "))
+	ev.Notes = append(ev.Notes, "groups whose domains were cut by the candidate/accepted caps (sizes used of the tier's sizes; order: arguments..., amount, token): "+strings.Join(pruned, "; "))
 	delete(ev.Coverage, "distinct_pruned_groups")
 	var nc []string
 	for e := range m.Sets["noncanonical_accepted_relayed"] {
@@ -818,13 +827,47 @@ func devBases(args []string) {
 		fmt.Println("VIOLATION", v.Key, v.What)
 	}
 	for k, s := range w.snaps {
-		fmt.Printf("  %s height=%d env=%+v\n", k, s.Height, s.Env)
+		fmt.Printf("  %s height=%d\n", k, s.Height)
 		t1 := time.Now()
-		for i := 0; i < 10; i++ {
+		for i := 0; i < 20; i++ {
 			p := s.open(c.TempDir(), c.TempDir())
 			p.destroy()
 		}
-		fmt.Printf("  open+destroy pair: %v each\n", time.Since(t1)/10)
+		fmt.Printf("  open+destroy pair: %v each\n", time.Since(t1)/20)
+		t1 = time.Now()
+		for i := 0; i < 20; i++ {
+			d := c.TempDir()
+			copyDir(s.ProdDir, d)
+			os.RemoveAll(d)
+		}
+		fmt.Printf("  copy one dir: %v each\n", time.Since(t1)/20)
+		t1 = time.Now()
+		for i := 0; i < 20; i++ {
+			d := c.TempDir()
+			copyDir(s.ProdDir, d)
+			n := vnode.New(vnode.Options{Dir: d})
+			n.Destroy()
+		}
+		fmt.Printf("  copy+open+destroy producer: %v each\n", time.Since(t1)/20)
+		t1 = time.Now()
+		for i := 0; i < 20; i++ {
+			d := c.TempDir()
+			copyDir(s.ProdDir, d)
+			n := vnode.New(vnode.Options{Dir: d, MemConsensus: true})
+			n.Destroy()
+		}
+		fmt.Printf("  copy+open+destroy producer memcons: %v each\n", time.Since(t1)/20)
+		id := &caseID{Regime: ri, Base: k, Contract: "stake", Method: "Stake", Actor: aOwner, Args: []string{"ok"}, Amount: "required", Token: "znn"}
+		t1 = time.Now()
+		for i := 0; i < 20; i++ {
+			p := s.open(c.TempDir(), c.TempDir())
+			v := execute(p, s.Env, id)
+			if v.Key != "" || !v.Accepted {
+				fmt.Println(v.Key, v.What, v.SendErr)
+			}
+			p.destroy()
+		}
+		fmt.Printf("  open+execute+destroy: %v each\n", time.Since(t1)/20)
 	}
 	_ = abi.Method{}
 }
